@@ -51,7 +51,7 @@ func runC19(x *X) {
 		kind string
 		f    string
 	}{
-		{"plain", "zz-%s"}, {"upper", "Fancy-%s"}, {"dotted", "a%s.b"}, {"two-dots", "a%s.b.c"}, {"texttable-prefixed", "texttable.zz%s"},
+		{"plain", "zz-%s"}, {"upper", "Fancy-%s"}, {"lower-twin-of-upper", "fancy-%s"}, {"dotted", "a%s.b"}, {"two-dots", "a%s.b.c"}, {"texttable-prefixed", "texttable.zz%s"},
 		{"trailing-dot", "zz%s."}, {"texttable-as-prefix", "texttable-zz%s"}, {"subpackage-as-prefix", "csv-zz%s"}, {"long-name", "zz-%s-" + strings.Repeat("n", 70)}, {"subpackage-lower", "csv"}, {"subpackage-upper", "JSON"}, {"empty", ""}, {"texttable-itself", "texttable"},
 	}
 	maxHist := x.Pick(3, 4)
@@ -187,6 +187,16 @@ func runC19(x *X) {
 					x.Fail("C19.alias", ltags, "auto.New(%q) is a %s, want *texttable.TextTable", L, typ)
 					continue
 				}
+				if d, mine := registered[L]; mine {
+					// the decoration selected is the one registered under exactly this name
+					ref := texttable.New()
+					c19Populate(ref)
+					ref.SetDecoration(d)
+					if want, _ := ref.Render(); want != out {
+						x.Fail("C19.alias", append(ltags, "selects_another_decoration"), "auto.New(%q) renders\n%s\nbut the decoration registered under %q renders\n%s", L, out, L, want)
+						continue
+					}
+				}
 				for _, v := range []string{"texttable." + L, "TEXTTABLE." + L, "TextTable." + L} {
 					vt, vo, ve, pn := render(v)
 					if pn {
@@ -196,6 +206,23 @@ func runC19(x *X) {
 						x.Fail("C19.alias", append(ltags, "variant:"+v), "auto.New(%q) gives %s/err %v/\n%s\nbut bare %q gives %s/\n%s", v, vt, ve, vo, L, typ, out)
 					}
 					x.Nontrivial(fmt.Sprint(histKinds, "alias", L, v))
+				}
+				// ... and they keep selecting the same thing when trailing sections follow (whatever that is: the
+				// decoration, or a refusal - the statement only fixes that both spellings agree)
+				if !strings.Contains(L, ".") {
+					for _, sfx := range []string{".x", ".x.y", ".", ".X"} {
+						bt, bo, be, pn := render(L + sfx)
+						if pn {
+							return
+						}
+						pt, po, pe, pn := render("texttable." + L + sfx)
+						if pn {
+							return
+						}
+						if bt != pt || bo != po || (be != nil) != (pe != nil) {
+							x.Fail("C19.alias", append(ltags, "trailing_sections", "variant:"+L+sfx), "auto.New(%q) gives %s/err %v/\n%s\nbut auto.New(%q) gives %s/err %v/\n%s", L+sfx, bt, be, bo, "texttable."+L+sfx, pt, pe, po)
+						}
+					}
 				}
 			} else {
 				// colliding names: 'texttable.NAME' must select the decoration and render
